@@ -7,8 +7,9 @@
 Require Import Cirbo.Model.Base Cirbo.Model.Gate Cirbo.Model.Den Cirbo.Model.Circuit Cirbo.Model.Eval
         Cirbo.Model.Sem Cirbo.Model.Bench Cirbo.Model.BenchLayout.
 Require Import Cirbo.Generated.GateTypes Cirbo.Generated.BenchDispatch.
+Require Import Cirbo.Model.PyStr Cirbo.Generated.BenchAlgGen.
 Require Import Cirbo.Proofs.BenchDispatchFacts Cirbo.Proofs.BenchLines Cirbo.Proofs.BenchFile
-        Cirbo.Proofs.BenchRoundtrip.
+        Cirbo.Proofs.BenchRoundtrip Cirbo.Proofs.BenchAlgGen.
 Require Import Coq.Sorting.Permutation.
 
 (* ---- T7: the regenerated tables ---- *)
@@ -25,6 +26,45 @@ Theorem C11_aliases :
   (exists h, lookup_processing processings BUFF_NAME = Some h /\ htype h = IFF) /\
   (exists h, lookup_processing processings VDD_NAME = Some h /\ htype h = ALWAYS_TRUE).
 Proof. exact alias_types. Qed.
+
+(* ---- T20: the printer and the parser regenerated statement by statement ---- *)
+(* Generated/BenchAlgGen.v is produced on every check from Gate.format_gate, Circuit.format_circuit / save_to_file /
+   from_bench_string / from_bench_file and the parser classes of parser/abstract.py and parser/bench.py (every
+   method these reach: convert_to_circuit, convert, _process_line, _process_input_gate, _process_output_gate,
+   _process_operator_gate, _parse_name_gate, _parse_operator_gate, _eof, _add_gate, the dict _processings and the
+   18 `_process_<op>` handlers stored under its 20 keys).  Each regenerated function equals the hand model the theorems below are about,
+   for ALL arguments (text = 8-bit strings; Python primitives as in Model/PyStr.v); the last clause is the round
+   trip stated for the regenerated functions themselves. *)
+Theorem C11_bench_regenerated :
+  (forall l g, gen_format_gate l g = format_gate l g) /\
+  (forall c, gen_format_circuit c = format_circuit c) /\
+  (forall c, gen_save_to_file c = format_circuit c) /\
+  (gen_VDD_NAME = VDD_NAME /\ gen_BUFF_NAME = BUFF_NAME) /\
+  gen_BenchToCircuit_new = empty_circuit /\
+  (forall c out t args, gen__add_gate c out t args = Ok (emplace_gate_raw c out t args)) /\
+  Forall2 (fun kh kg =>
+             fst kh = fst kg /\
+             forall c out args,
+               snd kg c out args
+               = if handler_accepts (snd kh) (List.length args)
+                 then Ok (emplace_gate_raw c out (htype (snd kh)) args) else Err PyTypeError)
+          processings gen__processings /\
+  (forall c key out args,
+     (do h <- py_dict_getitem gen__processings key; h c out args) = call_handler c key out args false) /\
+  (forall c line, gen__process_input_gate c line = Ok (process_input_gate c line)) /\
+  (forall c line, gen__process_output_gate c line = Ok (process_output_gate c line)) /\
+  (forall line, gen__parse_name_gate line = parse_name_gate line) /\
+  (forall body, gen__parse_operator_gate body = parse_operator_gate body) /\
+  (forall c line, gen__process_operator_gate c line = process_operator_gate c line) /\
+  (forall c line, gen__process_line c line = process_line c line) /\
+  (forall c, gen__eof c = eof c) /\
+  (forall c ls, gen_convert c ls = (do c' <- parse_lines ls c; eof c')) /\
+  (forall c ls, gen_convert_to_circuit c ls = (do c' <- parse_lines ls c; eof c')) /\
+  (forall text, gen_from_bench_string text = from_bench_string text) /\
+  (forall content, gen_from_bench_file content = from_bench_file_content content) /\
+  (forall c, bench_ok c ->
+     exists c', gen_from_bench_string (gen_format_circuit c) = Ok c' /\ same_circuit c' c).
+Proof. exact bench_regenerated. Qed.
 
 (* ---- the round trip ---- *)
 (* for every circuit whose labels are bench identifiers (bench_ok: non-empty labels without
